@@ -335,14 +335,14 @@ def case_rs(ctx, case, be=None):
                 got = c1[i]
                 s = Fr(j) * e['total'] / (k + 1)
                 okp = all(close(got[a], m[a]) for a in range(3))
-                if not ctx.corr(okp, True, f"{what}: node {i} (sample {j} of segment {e['first']}→{e['last']}) at {got[:3]}, model "
-                                f"{tuple(float(v) for v in m[:3])} (arc-length interpolation)", case):
+                if not ctx.oracle(okp, f"{what}: node {i} (sample {j} of {k + 2} of segment {e['first']}→{e['last']}) is at {got[:3]}, but the point at "
+                                  f"arc length {j}/{k + 1} of the original cable is {tuple(float(v) for v in m[:3])}", case):
                     return
                 if s in dup:
                     ctx.count('rs_radius', 'skipped-at-coincident-nodes')
                 else:
-                    if not ctx.corr(close(got[3], m[3]), True, f"{what}: radius of node {i} (sample {j} of segment {e['first']}→{e['last']}) "
-                                    f"{got[3]} vs model {float(m[3])}", case):
+                    if not ctx.oracle(close(got[3], m[3]), f"{what}: radius of node {i} (sample {j} of segment {e['first']}→{e['last']}) is "
+                                      f"{got[3]}, linear interpolation along the cable gives {float(m[3])}", case):
                         return
                     ctx.count('rs_radius', 'compared')
     nroots = sum(1 for p in pm0.values() if p < 0)
